@@ -1011,6 +1011,11 @@ class DFA:
         """
 
         for finish in target_states:
+            if finish is self.starting_state and not any(True for _ in self.transitions_pointing_to(finish)):
+                # nothing leads into the starting state: on the path that matches nothing there is no transition to carry the actions
+                strict = [action for action in actions if action.is_timing_strict()]
+                if strict:
+                    raise UnableToScheduleActionError([finish], strict)
             for incoming, trans in self.transitions_pointing_to(finish, include_states=True):
                 for action in actions:
                     if action.is_timing_strict() and any(not x.error_handling for x in finish.transitions):
